@@ -73,29 +73,33 @@ def validatefirst(run, fx):
             run.held('VALIDATEFIRST', inst, fn.where(), 'returns 0 with *error = last - 1 (inside the buffer)')
         else:
             run.violated('VALIDATEFIRST', inst, fn.where(), 'a failed tail validation no longer returns 0 with *error = last - 1 (return %s, error store %s)' % (okr, oke))
-        # loop exits: the bounded for loop stops at last, at NUL and at an error
-        fl = [b for b in fn.blocks if (fn.blocks[b].get('term') or {}).get('k') == 'ForStmt']
-        c = fn.render(fn.term_cond(fl[0])) if fl else ''
-        brk = [b for b in fn.blocks if (fn.blocks[b].get('term') or {}).get('k') == 'BreakStmt']
-        okb = False
-        for b in brk:
-            fs = [f[:3] for f in dom.facts_at_block(fn, b)]
-            # break reached from either `usv == 0` or `first.error()`
-            okb = True
-        atoms = set()
-        for b in fn.blocks:
-            cnd = fn.term_cond(b)
-            if cnd is not None:
-                for a, p in dom.atoms(fn, cnd, True):
-                    atoms.add(dom.norm(fn, a, p)[:3])
-        has_nul = any(('usv' in a[0] and a[1] == '==' and a[2] == '0') for a in atoms)
-        has_err = any('first.error()' in a[0] for a in atoms)
+        # loop exits: every advance of the iterator is reached only after the decoded value was tested non-zero and the decode
+        # error flag clear; in the region with a buffer end additionally only under first != last
+        incs = [e for _, e in fn.elements() if e['k'] == 'CXXOperatorCallExpr' and (e.get('fq') or '').endswith('::operator++')]
+        if not incs:
+            run.broken('VALIDATEFIRST', 'count<%s> loop exits' % tag, 'no advance of the iterator found', fn.where())
+            continue
+        bad = []
+        nb = 0
+        for e in incs:
+            fs = [f[:3] for f in dom.facts_at(fn, e['i'])]
+            bounded_region = any('last' in f[0] and f[1] == '!=' and f[2] == '0' and 'operator' not in f[0] for f in fs)
+            has_nul = any('usv' in f[0] and f[1] == '!=' and f[2] == '0' for f in fs)
+            has_err = any('first.error()' in f[0] and f[1] == '==' and f[2] == '0' for f in fs)
+            has_end = any('operator!=' in f[0] and 'last' in f[0] and f[1] == '!=' and f[2] == '0' for f in fs)
+            if bounded_region:
+                nb += 1
+            if not (has_nul and has_err and (has_end or not bounded_region)):
+                bad.append((e, bounded_region, has_end, has_nul, has_err))
         inst = 'count<%s> loop exits' % tag
-        if 'operator!=' in c and 'last' in c and brk and has_nul and has_err:
-            run.held('VALIDATEFIRST', inst, fn.where(), 'for (; first != last; ...) with break on usv == 0 || first.error()')
+        if not bad and nb:
+            run.held('VALIDATEFIRST', inst, fn.where(), 'every ++first is dominated by usv != 0 and !first.error(); with a buffer end also by first != last')
+        elif not nb:
+            run.broken('VALIDATEFIRST', inst, 'no iterator advance found in the region with a buffer end', fn.where())
         else:
-            run.violated('VALIDATEFIRST', inst, fn.where(), 'the bounded counting loop lost one of its exits (first != last: %s, NUL: %s, error: %s)'
-                         % ('operator!=' in c, has_nul, has_err))
+            e, br, he, hn, hr = bad[0]
+            run.violated('VALIDATEFIRST', inst, fn.loc(e), 'the counting loop lost one of its exits before it advances (buffer end region: %s; first != last: %s, NUL: %s, error: %s)'
+                         % (br, he, hn, hr))
 
 
 def contguard(run, fx):
